@@ -14,6 +14,54 @@ import c05
 EXPECTED = [12, 9]     # t_item(x, y=1) = x*x*y for enqueue(2, 3) and enqueue(3)
 
 
+def isolated_blocked_consumer(kind, how):
+    """blocked_consumer() in a process of its own; returns (blocked, values) | ('signal', -n) | ('hang', None)"""
+    import json
+    import re
+    import subprocess
+    import sys
+    import tempfile
+    from pathlib import Path
+    with tempfile.NamedTemporaryFile('w', suffix='.json', delete=False) as f:
+        json.dump({'case': {'scenario': 'blocked-consumer', 'kind': kind, 'how': how}}, f)
+    try:
+        p = subprocess.run([sys.executable, str(Path(__file__).resolve().parent / 'check.py'), 'C06', '--replay', f.name],
+                           capture_output=True, text=True, timeout=120, start_new_session=True)
+    except subprocess.TimeoutExpired:
+        return ('hang', None)
+    finally:
+        os.unlink(f.name)
+    m = re.search(r'consumer still blocked=(True|False), values (\[[^\]]*\])', p.stdout)
+    if m:
+        return (m.group(1) == 'True', json.loads(m.group(2)))
+    if p.returncode < 0:
+        return ('signal', p.returncode)
+    return ('error', (p.stdout + p.stderr)[-300:])
+
+
+def blocked_consumer(sess, kind, how):
+    """a consumer is blocked in results_iter() when the worker is stopped; returns (still blocked, values, worker)"""
+    w = c05.mk(kind, sess, TG.t_swallow_on_neg if how == 'force' else TG.t_fail_on_neg)
+    got = []
+    t = threading.Thread(target=lambda: got.extend(w.results_iter()), daemon=True)
+    w.enqueue(2)
+    w.enqueue(3)
+    t.start()
+    time.sleep(0.5)
+    if how == 'terminate':
+        watchdog(lambda: w.terminate(2), 15)
+    elif how == 'kill':
+        os.kill(w.pid, signal.SIGKILL)
+    elif how == 'force':
+        w.enqueue(-1)
+        time.sleep(0.3)
+        watchdog(lambda: w.terminate(0.5, force=True), 15)
+    else:
+        w.enqueue(-1)
+    t.join(8)
+    return t.is_alive(), list(got), w
+
+
 def main(ctx: Ctx):
     ctx.assumptions += [
         'E-S1: a pipe delivers EOF once every writer closed it / died; a queue.Queue (thread kinds) has no EOF - probed by the blocked-consumer runs',
@@ -72,31 +120,25 @@ def main(ctx: Ctx):
                     ctx.fail('blocked-consumer:thread:cleanup-landing', f'PersistentThreadWorker: terminate() landing at line {tr[k]} (inside the finally/_cleanup of _run) with a consumer blocked in results_iter(): consumer still blocked={r.get("consumer_blocked")}, results {r.get("results")}',
                              {'prog': 'pthreadRun', 'k': k, 'mode': 'terminate', 'scenario': 'cleanup-landing'})
         # ---- consumer blocked in results_iter() before the worker is stopped
-        for kind in ('thread', 'process', 'remote'):
+        # ('remote-ctx': a remote worker created inside a RemoteContext - the server hands the connection to the context process)
+        for kind in ('thread', 'process', 'remote', 'remote-ctx'):
             for how in ('terminate', 'kill', 'exception', 'force'):
                 if how in ('kill', 'force') and kind == 'thread':
                     continue
                 # 'force': the target swallows the graceful request, the child has to be killed by terminate(force=True)
                 # (remote kind: by the server, which then reports the outcome on the child's behalf)
-                w = c05.mk(kind, sess, TG.t_swallow_on_neg if how == 'force' else TG.t_fail_on_neg)
-                got = []
-                t = threading.Thread(target=lambda: got.extend(w.results_iter()), daemon=True)
-                w.enqueue(2)
-                w.enqueue(3)
-                t.start()
-                time.sleep(0.5)
-                if how == 'terminate':
-                    watchdog(lambda: w.terminate(2), 15)
-                elif how == 'kill':
-                    os.kill(w.pid, signal.SIGKILL)
-                elif how == 'force':
-                    w.enqueue(-1)
-                    time.sleep(0.3)
-                    watchdog(lambda: w.terminate(0.5, force=True), 15)
-                else:
-                    w.enqueue(-1)
-                t.join(8)
-                blocked = t.is_alive()
+                if kind == 'remote-ctx':
+                    # in its own process: the parent side of a remote worker ends the *calling process* with SIGTERM when
+                    # its frontend thread does not finish in time - that must show up as a failure, not kill the check
+                    res = isolated_blocked_consumer(kind, how)
+                    ctx.case(('blocked-consumer', kind, how), True, sample={'case': 'consumer blocked before the death', 'kind': kind, 'how': how, 'outcome': res})
+                    if res != (False, [4, 9]):
+                        what = (f'the process that called terminate() was ended by signal {-res[1]}' if res[0] == 'signal' else
+                                f'no answer within 120 s' if res[0] == 'hang' else f'still blocked={res[0]}, got {res[1]}')
+                        ctx.fail(f'blocked-consumer:{kind}:{how}', f'{kind}: consumer blocked in results_iter() before the worker was stopped ({how}): {what}',
+                                 {'kind': kind, 'scenario': 'blocked-consumer', 'how': how})
+                    continue
+                blocked, got, w = blocked_consumer(sess, kind, how)
                 ctx.case(('blocked-consumer', kind, how), True, sample={'case': 'consumer blocked before the death', 'kind': kind, 'how': how, 'got': list(got), 'still_blocked': blocked})
                 if blocked or got != [4, 9]:
                     ctx.fail(f'blocked-consumer:{kind}:{how}', f'{kind}: consumer blocked in results_iter() before the worker was stopped ({how}): still blocked={blocked}, got {got}', {'kind': kind, 'scenario': 'blocked-consumer', 'how': how})
@@ -104,6 +146,7 @@ def main(ctx: Ctx):
                     w.terminate(0.5, **({'force': True} if kind != 'thread' else {}))
                 except Exception:
                     pass
+                c05.drop(w)
         # ---- pool-style reader: raw Pipe handed in as results_pipe, must see the end marker or EOF
         from pyworkers.utils import Pipe
         for kind in ('process', 'remote'):
@@ -263,6 +306,19 @@ def cleanup_lines(prog):
 
 
 def replay(case):
+    if case.get('scenario') == 'blocked-consumer':
+        sess = inject.Session()
+        try:
+            blocked, got, w = blocked_consumer(sess, case['kind'], case['how'])
+            print(f"{case['kind']} / {case['how']}: consumer still blocked={blocked}, values {got} (expected False, [4, 9])")
+            try:
+                w.terminate(0.5, **({'force': True} if case['kind'] != 'thread' else {}))
+            except Exception:
+                pass
+            c05.drop(w)
+        finally:
+            sess.close()
+        return
     if case.get('scenario') == 'forwarder':
         import common
         common.repo_on_path()
